@@ -484,3 +484,35 @@ def _ser(o):
     b.connectionMade()
     d = b.send(o)
     return b"".join(b.transport.data)
+
+
+def replay(ctx, data):
+    """re-run one recorded case: ./check C07 --replay replays/C07-*.json"""
+    from harness import c07_impl as I
+    ctx.rule = "replay of one recorded case"
+    rp = data.get("replay") or {}
+    stream = bytes(rp["stream"])
+    cs = rp.get("chunks") or [len(stream)]
+    mode = rp.get("rootmode", "any")
+    ok, log = ctx.coq_build(["lib/BananaRecv.vo"])
+    with I.E_quiet():
+        runs = []
+        for c in ([len(stream)], cs):
+            if rp.get("real"):
+                ev, final, esc = I.run_real(stream, c)
+                snaps = [dict(final, inopen=False)]
+            else:
+                ev, snaps, esc = I.run_policy(stream, c, mode)
+            runs.append((c, ev, snaps, esc))
+            print("chunks", c[:20], "->", ev, snaps[-1] if snaps else None, "escaped:", esc)
+            ctx.case([list(stream), c, mode])
+    (c1, e1, s1, x1), (c2, e2, s2, x2) = runs
+    ctx.sample(dict(stream=list(stream), chunks=cs, rootmode=mode))
+    if x1 or x2:
+        ctx.fail("oracle/exception-escaped", "exception escaped: %r %r" % (x1, x2), replay=rp)
+    norm = lambda s_: None if not s_ else (dict(s_[-1], buf=0, skip=0) if s_[-1]["dead"] else s_[-1])
+    if (e1, norm(s1)) != (e2, norm(s2)):
+        ctx.fail("oracle/chunk-dependent", "whole %r vs chunked %r" % ((e1, norm(s1)), (e2, norm(s2))), replay=rp)
+    if ok and not rp.get("real"):
+        correspond(ctx, [(stream, c, mode, e, s_) for (c, e, s_, x) in runs if not x])
+    ctx.distinct.add(b"x"); ctx.nontrivial.update([b"a", b"b"])
